@@ -21,7 +21,7 @@ TIERS = {
     "quick": {"targets": 320, "runs": 600, "ref_seeds": [0, 1, 20260924, 4242], "fresh_checks": 6, "redo": 8, "min_budget": 24,
               "chunk": 12, "budget_s": 420, "torchlib": False},
     "thorough": {"targets": 4000, "runs": 24000, "ref_seeds": [0, 1, 2, 3, 7, 1234567, 20260924, 4294967295], "fresh_checks": 40,
-                 "redo": 250, "min_budget": 60, "chunk": 25, "budget_s": 3300, "torchlib": True, "per_family": 10, "ort_models": 200, "ort_per_file": 40, "attention_models": 32, "script_twins": 40, "external_families": 23, "composed_models": 100, "op_families": 200},
+                 "redo": 250, "min_budget": 60, "chunk": 25, "budget_s": 3300, "torchlib": True, "per_family": 10, "ort_models": 200, "ort_per_file": 40, "attention_models": 32, "gqa_models": 16, "script_twins": 40, "external_families": 23, "composed_models": 100, "op_families": 200},
 }
 REF_PRE_SKEW = [0, 3, 5, 1, 2, 7, 11, 13]   # pre-import heap skew of the i-th reference environment
 PRE_SKEWS = [0, 0, 1, 2, 3, 5, 7, 11, 13, 101]
@@ -110,7 +110,8 @@ FAMILY_AFFINITY = {
 
 
 FAMILY_AFFINITY_2 = {"gen:rms_norm": "ort:rms_normalization,softmax", "gen:fold_chain": None, "gen:user_rules": "user:commute"}
-FAMILY_AFFINITY_3 = {"gen:local_functions": [("optimize", {"api": "inline"}), ("optimize", {"api": "proto"}), ("optimize", {"api": "ir"})],
+FAMILY_AFFINITY_3 = {"gen:opset_twins": [("optimize", {"api": "fold_pass"}), ("optimize", {"api": "ir"}), ("optimize", {"api": "proto"})],
+                     "gen:local_functions": [("optimize", {"api": "inline"}), ("optimize", {"api": "proto"}), ("optimize", {"api": "ir"})],
                      "gen:user_rules": [("rewrite", {"rules": "user:functions", "api": "apply"}), ("rewrite", {"rules": "user:all", "api": "ir"}),
                                         ("rewrite", {"rules": "user:bad_pattern", "api": "apply"})]}
 
@@ -280,6 +281,11 @@ def gen_targets(seed: int, tier: dict, pools) -> list[dict]:
                     cfgs.append(("rewrite", {"rules": "ortfn:" + mod, "api": "apply", "pre_optimize": True}))
             if mod == "rotary_embedding":
                 cfgs.append(("rewrite", {"rules": "ortall:cos_sin_cache", "api": "apply", "pre_optimize": True}))
+                # ... and, declared as opset 23 the way rules/fusion's own test does, through the standard-ONNX fusions
+                m23 = dict(m, force_opset=23)
+                for kind, params in (("rewrite", {"rules": "fusionall:_rotary_embedding", "api": "apply", "pre_optimize": True}),
+                                     ("rewrite", {"rules": "onnxfuse", "api": "apply", "pre_optimize": True})):
+                    add(with_id({"kind": kind, "model": m23, "family": fam, **copy.deepcopy(params)}))
             _, kind, params = r.weighted([(c, c[0]) for c in OBJECT_CONFIGS])
             cfgs.append((kind, params))
             for kind, params in cfgs:
@@ -299,6 +305,18 @@ def gen_targets(seed: int, tier: dict, pools) -> list[dict]:
         cfgs.append((kind, params))
         for kind, params in cfgs:
             add(with_id({"kind": kind, "model": m, "family": "gen:attention", **copy.deepcopy(params)}))
+    gqa_off = rng.sub("variant-offset", "gqa").below(64)
+    for i in range(tier.get("gqa_models", 4)):
+        r = rng.sub("gqa", i)
+        m = genattention.gen_gqa(r.sub("gen"), member=i, offset=gqa_off)
+        m.pop("variant", None)
+        cfgs = [("rewrite", {"rules": "fusionall:_gqa", "api": "apply", "pre_optimize": True}),
+                ("rewrite", {"rules": "onnxfuse", "api": "apply", "pre_optimize": True}),
+                ("optimize", {"api": "fw:torch_2_8:0"})]
+        if r.chance(0.5):
+            cfgs.append(("rewrite", {"rules": "ortfuse:optimize_for_ort", "api": "apply"}))
+        for kind, params in cfgs:
+            add(with_id({"kind": kind, "model": m, "family": "gen:gqa", "member": i, **copy.deepcopy(params)}))
     script_slots = [x for x in pools.script_models if "/fusion/" in x[0]]
     rng.sub("scriptorder").shuffle(script_slots)
     script_slots = script_slots[:tier.get("script_models", 8)]
